@@ -1,7 +1,7 @@
 import ast
 import inspect
 import textwrap
-from typing import AbstractSet, Callable, Collection, Dict, Set
+from typing import AbstractSet, Callable, Collection, Dict, Set, Tuple
 
 Dependencies = AbstractSet[str]
 
@@ -36,7 +36,7 @@ def find_dependencies(func: Callable) -> Dependencies:
     return finder.dependencies
 
 
-cache: Dict[Callable, Dependencies] = {}
+cache: Dict[Tuple[type, Callable], Dependencies] = {}
 
 
 def find_all_dependencies(
@@ -44,7 +44,8 @@ def find_all_dependencies(
 ) -> Dependencies:
     """Dependencies contains class variables (because they can be "fake" ones as in
     dataclasses)"""
-    if func not in cache:
+    # members are looked up on cls, so the result depends on it
+    if (cls, func) not in cache:
         dependencies = set(find_dependencies(func))
         for attr in list(dependencies):
             if not hasattr(cls, attr):
@@ -58,5 +59,5 @@ def find_all_dependencies(
                     continue
                 rec_deps = find_all_dependencies(cls, member, {*rec_guard, member})
                 dependencies.update(rec_deps)
-        cache[func] = dependencies
-    return cache[func]
+        cache[cls, func] = dependencies
+    return cache[cls, func]
